@@ -23,7 +23,6 @@ import (
 	"net/http"
 	"net/http/httptest"
 	"strconv"
-	"strings"
 	"testing"
 
 	"github.com/apache/arrow-go/v18/arrow"
@@ -496,6 +495,5 @@ func (s *stepper) Step(i int, st replay.Step) (replay.Obs, error) {
 
 func TestReplay(t *testing.T) {
 	slog.SetDefault(slog.New(slog.NewTextHandler(io.Discard, nil)))
-	_ = strings.TrimSpace
 	replay.Run(t, "AuthDecide", func() replay.Stepper { return &stepper{} })
 }
